@@ -251,6 +251,11 @@ MC = {
     # the same scripts with processes that may block inside the library after they left their gate (thorough tier)
     "req_b": dict(script="ScriptReq", blocking=True, amax=2, emax=2, conns=2, dial=1, write=1, read=0, store=0, calls=4, k_quick=200, k_thorough=20, thorough_only=True),
     "close_b": dict(script="ScriptClose", blocking=True, amax=2, emax=2, conns=2, dial=1, write=1, read=1, store=0, calls=4, k_quick=400, k_thorough=40, thorough_only=True),
+    # runs that start with the adoption of a Persistence an earlier incarnation left behind, with every subset of up to two
+    # records removed or altered before (StoreWrap: both sequences straddle the identifier wrap)
+    "seedmix": dict(script="ScriptNew", initstore="StoreMix", initdamage=2, amax=4, emax=4, conns=2, dial=0, write=0, read=0, store=0, calls=12, k_quick=500, k_thorough=50),
+    "seedwrap": dict(script="ScriptNew", initstore="StoreWrap", initdamage=2, amax=4, emax=4, conns=2, dial=0, write=0, read=0, store=0, calls=12, k_quick=400, k_thorough=40),
+    "seedrels": dict(script="ScriptNew", initstore="StoreRels", initdamage=1, amax=2, emax=2, conns=2, dial=0, write=1, read=1, store=0, calls=8, k_quick=30, k_thorough=3),
     "q12w2": dict(script="ScriptQ12", amax=2, emax=2, conns=2, dial=0, write=2, read=0, store=0, calls=4, k_quick=25, k_thorough=3),
     "quit":  dict(script="ScriptQuit", amax=2, emax=2, conns=2, dial=0, write=0, read=1, store=0, calls=4, k_quick=150, k_thorough=15),
     "unsub": dict(script="ScriptUnsub", amax=2, emax=2, conns=2, dial=0, write=1, read=1, store=0, calls=4, k_quick=60, k_thorough=6),
@@ -259,7 +264,7 @@ MC = {
 MC_FOR = {
     "C01": ["one", "q2"], "C03": ["q2"], "C05": ["two"], "C10": ["one", "mixreq"], "C12": ["close", "reqclose", "disc", "discreq", "close_b"], "C17": ["max1", "one"],
     "C18": ["one", "req"], "C14": ["req", "close", "quit", "unsub"], "C08": ["mixreq", "two", "q12w2"], "C11": ["req", "pings", "quit", "unsub", "devF25", "req_b"],
-    "C04": ["in22", "in", "inrestart"], "C07": ["in", "in22", "inrestart"], "C13": ["in"], "C02": ["restart", "restart2"], "C16": ["damage", "damage3", "damage5", "damage24"],
+    "C04": ["in22", "in", "inrestart"], "C07": ["in", "in22", "inrestart"], "C13": ["in"], "C02": ["restart", "restart2", "seedwrap", "seedrels"], "C16": ["damage", "damage3", "damage5", "damage24", "seedmix", "seedwrap"],
 }
 INVARIANTS = ("TypeOK C01_NoForgedCompletion C03_ExactlyOnceDelivery C05_WireOrderIsIdOrder C07_AckedOnlyIfReturned C08_WholePackets C12_Signals C17_Bounded "
               "C18_ConnectFirst C11_PongIsOwn C02_AdoptMatchesLive C02_NoWarnings C16_ResendFindsRecords C16_PendingAreStored C16_NoKeyCollision")
@@ -278,7 +283,7 @@ LIVE_FOR = {"C01": ["live_one", "live_f4"], "C10": ["live_one", "live_f4"], "C11
 
 def tlc_liveness(ctx, name, dev=""):
     sc, conns, dial, write, read, store, calls, props = LIVE[name]
-    cfg = ("CONSTANTS Script <- %s Script2 <- NoGen2 MaxStops = 0 MaxDamage = 0 DEV_F2 = FALSE DEV_F10 = FALSE DEV_F19 = FALSE DEV_F25 = FALSE Blocking = FALSE InMsgs <- NoIn AMax = 2 EMax = 2 MaxConns = %d DialFails = %d WriteFails = %d ReadFails = %d StoreFails = %d "
+    cfg = ("CONSTANTS Script <- %s Script2 <- NoGen2 MaxStops = 0 MaxDamage = 0 DEV_F2 = FALSE DEV_F10 = FALSE DEV_F19 = FALSE DEV_F25 = FALSE Blocking = FALSE InitStore <- NoStore InitDamage = 0 InMsgs <- NoIn AMax = 2 EMax = 2 MaxConns = %d DialFails = %d WriteFails = %d ReadFails = %d StoreFails = %d "
            "MaxCalls = %d RecordHist = FALSE DEV_F4 = %s DEV_F6 = %s SampleK = 1\nSPECIFICATION LiveSpec\nPROPERTIES %s\nCHECK_DEADLOCK FALSE\n") % (
         sc, conns, dial, write, read, store, calls, "TRUE" if dev == "F4" else "FALSE", "TRUE" if dev == "F6" else "FALSE", props)
     cfgname = "MC_client_%s%s_gen.cfg" % (name, dev)
@@ -294,6 +299,7 @@ def tlc_behaviours(ctx, name, cap):
     dev = c.get("dev", "")
     cfg = ("CONSTANTS Script <- %s Script2 <- " + c.get("script2", "NoGen2") + (" MaxStops = %d MaxDamage = %d" % (c.get("stops", 0), c.get("damage", 0)))
            + "".join(" DEV_%s = %s" % (f, "TRUE" if f == dev else "FALSE") for f in ("F2", "F10", "F19", "F25")) + " Blocking = " + ("TRUE" if c.get("blocking") else "FALSE")
+           + " InitStore <- " + c.get("initstore", "NoStore") + " InitDamage = %d" % c.get("initdamage", 0)
            + " InMsgs <- " + c.get("inmsgs", "NoIn") + " AMax = %d EMax = %d MaxConns = %d DialFails = %d WriteFails = %d ReadFails = %d "
            "StoreFails = %d MaxCalls = %d RecordHist = TRUE DEV_F4 = FALSE DEV_F6 = FALSE SampleK = %d\n"
            "SPECIFICATION Spec\nVIEW view\nINVARIANTS %s\nPROPERTIES C08_NothingAfterIncomplete\nCHECK_DEADLOCK FALSE\nACTION_CONSTRAINT %s\n") % (
@@ -303,7 +309,7 @@ def tlc_behaviours(ctx, name, cap):
     with open(os.path.join(ctx.specdir(), cfgname), "w") as f:
         f.write(cfg)
     res = pipeline.model_check(ctx, "MC_client", cfgname, args=["-seed", str(ctx.seed)], timeout=1500)
-    cases = pipeline.parse_cases(res.out, "BAD" if c.get("bad") else "CASE")
+    cases = pipeline.parse_cases(res.out, "BAD" if c.get("bad") else "CASE", limit=max(3000, cap * 4))
     if c.get("bad"):
         cases = cases[:40]
         ctx.cov["regenerated_findings"] = ctx.cov.get("regenerated_findings", {})
@@ -314,6 +320,8 @@ def tlc_behaviours(ctx, name, cap):
         script2 = {}
     inmsgs = pipeline.parse_cases(res.out, "INMSGS")[0]
     SCRIPTS[name] = (script, script2, inmsgs if isinstance(inmsgs, list) else [])
+    initstore = pipeline.parse_cases(res.out, "INITSTORE")[0]
+    seed = [{"key": int(k), "kind": v["kind"], "tag": v["tag"], "sseq": v["sseq"]} for k, v in sorted(initstore.items())] if isinstance(initstore, dict) else []
     steps = [x["steps"] for x in cases]
     keys = [json.dumps(x, sort_keys=True, separators=(",", ":")) for x in steps]
     # a behaviour that is a prefix of another exported one is covered by it
@@ -349,6 +357,8 @@ def tlc_behaviours(ctx, name, cap):
                 step["o"], step["n"] = "timeout", 1
             if step.get("env") == "bsend":
                 step["pkt"].update({"topic": "in/t", "len": 8})
+            elif step.get("env") == "adopt" and step["gen"] == 1:
+                step["start"] = mkprocs(script, "rd")     # the run starts with the adoption of a seeded Persistence
             elif step.get("env") == "adopt":
                 # the processes of the next generation start on the adopted client; its read routine is a new process
                 reader = "rd%d" % step["gen"]
@@ -358,7 +368,7 @@ def tlc_behaviours(ctx, name, cap):
     ctx.cov["behaviours_exported"] = ctx.cov.get("behaviours_exported", 0) + len(cases)
     if k == 1 and len(maximal) == len([1 for _ in maximal]) and cap >= len(maximal):
         ctx.cov["exhaustive_configs"] = ctx.cov.get("exhaustive_configs", []) + [name]
-    return [dict({"id": "mc-%s-%d" % (name, i), "cfg": {"amax": c["amax"], "emax": c["emax"]}, "procs": procs, "steps": st,
+    return [dict({"id": "mc-%s-%d" % (name, i), "cfg": dict({"amax": c["amax"], "emax": c["emax"]}, **({"seed": seed} if seed else {})), "procs": procs, "steps": st,
                   "epilogue": "drain"}, **({"dev": dev} if c.get("bad") else {})) for i, st in enumerate(maximal)]
 
 
@@ -472,7 +482,7 @@ def conformance(ctx, binary, names, per):
             cwd = ctx.specdir("conf-%s-%d" % (name, i))
             with open(os.path.join(cwd, cfgname), "w") as f:
                 f.write(("CONSTANTS Script <- %s Script2 <- %s MaxStops = %d MaxDamage = 0 DEV_F2 = FALSE DEV_F10 = FALSE DEV_F19 = FALSE "
-                         "DEV_F25 = FALSE DEV_F4 = FALSE DEV_F6 = FALSE Blocking = TRUE InMsgs <- %s AMax = %d EMax = %d MaxConns = 50 DialFails = 50 "
+                         "DEV_F25 = FALSE DEV_F4 = FALSE DEV_F6 = FALSE Blocking = TRUE InitStore <- NoStore InitDamage = 0 InMsgs <- %s AMax = %d EMax = %d MaxConns = 50 DialFails = 50 "
                          "WriteFails = 50 ReadFails = 50 StoreFails = 50 MaxCalls = 1000 RecordHist = FALSE SampleK = 1\n"
                          "SPECIFICATION TSpec\nCHECK_DEADLOCK FALSE\n") % (
                     c["script"], c.get("script2", "NoGen2"), 1 if c.get("stops") else 0, c.get("inmsgs", "NoIn"), c["amax"], c["emax"]))
@@ -533,7 +543,7 @@ def run(ctx, replay=None):
     else:
         behs = behaviours(ctx, fams) + [f() for f in EXTRA.get(ctx.prop, [])]
         mcs = MC_FOR.get(ctx.prop, [])
-        cap = (1200 if ctx.tier == "quick" else 12000) // max(1, len(mcs))
+        cap = (1200 if ctx.tier == "quick" else 8000) // max(1, len(mcs))
         for name in mcs:
             if MC[name].get("thorough_only") and ctx.tier == "quick":
                 continue
